@@ -12,7 +12,7 @@ RULE = ("phase with p0, p1 drawn from (-360, 360) in all four sign combinations 
         "phase_cycle with every receiver-phase list of length 1-8 dividing the cycled extent; correspondence with the Lean "
         "model (closed-form factor table) and, on the real code, closed form, |out|=|in|, additivity, inverse, "
         "360-periodicity of p0; autophase on synthetic mis-phased Lorentzians: magnitudes kept, recorded angles replay the "
-        "output through phase(), reference-slice mode applies that slice's angles to every trace; non-trivial = a negative "
+        "output through phase(), reference-slice mode applies that slice's angles to every trace, a second autophase on data that already carries an autophase record behaves as on data without history; non-trivial = a negative "
         "angle, an array angle or dimension not first")
 
 
@@ -104,6 +104,36 @@ def autophase_oracle(tier, seed):
             rep = dnp.phase(d, "f2", p0, p1)
             if not np.allclose(rep.values, r.values, rtol=1e-7, atol=1e-9):
                 fails.append({"key": "C13:autophase-replay", "clause": "C13:autophase-replay", "ops": [{"shape": shape, "dim_pos": k}]})
+        # autophase applied AGAIN to data that already carries an autophase record (autophase -> further drift -> autophase):
+        # the second pass must behave as on data without history — its own record holds its own angles, which replay its output
+        with warnings.catch_warnings():
+            warnings.simplefilter("ignore")
+            drift = dnp.phase(r, "f2", 35.0, -60.0)
+            bare = dnp.DNPData(np.array(drift.values, copy=True), list(drift.dims), [np.array(drift.coords[dm], copy=True) for dm in drift.dims])
+            r2 = dnp.autophase(drift, dim="f2")
+            r2b = dnp.autophase(bare, dim="f2")
+        n_eval += 1
+        t2 = r2.proc_attrs[-1][1].get("phasetuples", []) if r2.proc_attrs and r2.proc_attrs[-1][0] == "autophase" else None
+        if t2 is None or len(t2) != m:
+            fails.append({"key": "C13:autophase-second-pass-record", "clause": "C13:autophase-second-pass-record", "ops": [{"shape": shape, "dim_pos": k}]})
+        else:
+            q0 = np.array([t[0] for t in t2]); q1 = np.array([t[1] for t in t2])
+            if m == 1:
+                q0, q1 = float(q0[0]), float(q1[0])
+            rep2 = dnp.phase(drift, "f2", q0, q1)
+            if not np.allclose(rep2.values, r2.values, rtol=1e-7, atol=1e-9):
+                fails.append({"key": "C13:autophase-second-pass-replay", "clause": "C13:autophase-second-pass-replay", "ops": [{"shape": shape, "dim_pos": k}]})
+        if not np.allclose(r2.values, r2b.values, rtol=1e-9, atol=1e-12):
+            fails.append({"key": "C13:autophase-depends-on-earlier-history", "clause": "C13:autophase-depends-on-earlier-history", "ops": [{"shape": shape, "dim_pos": k}]})
+        if len(shape) == 2:
+            with warnings.catch_warnings():
+                warnings.simplefilter("ignore")
+                rs2 = dnp.autophase(drift, dim="f2", reference_slice=(dims[1 - k], shape[1 - k] - 1))
+                rs2b = dnp.autophase(bare, dim="f2", reference_slice=(dims[1 - k], shape[1 - k] - 1))
+            n_eval += 1
+            if not np.allclose(rs2.values, rs2b.values, rtol=1e-9, atol=1e-12):
+                fails.append({"key": "C13:autophase-reference-slice-depends-on-earlier-history",
+                              "clause": "C13:autophase-reference-slice-depends-on-earlier-history", "ops": [{"shape": shape, "dim_pos": k}]})
         if len(shape) == 2:
             other = dims[1 - k]
             for ref_idx, deriv in [(r_, dv) for r_ in range(shape[1 - k]) for dv in (1, 2, 3)]:
